@@ -38,6 +38,8 @@ _TABLE = (
     ('hello', 'hello'), ('', ''), ('12', '12'), ('b', 'b'), ('{"a":[1,2]}', {'a': [1, 2]}), ({'a': 1}, {'a': 1}),
     ([1, 'x'], [1, 'x']), (b'', b''), (b'\x00\xff', b'\x00\xff'), (bytearray(b'abc'), b'abc'), ('\xe9 ', '\xe9 '),
     (None, ''), ('"q"', 'q'), ('null', None),
+    # backslash-n in the wire form: text with a backslash followed by n, JSON whose string holds a newline, a doubled backslash
+    ('C:\\new\\notes', 'C:\\new\\notes'), ({'t': 'line\nbreak'}, {'t': 'line\nbreak'}), ('a\\\\nb', 'a\\\\nb'),
 )
 
 
